@@ -9,12 +9,12 @@ import (
 
 type followSpec struct {
 	Fn       *ssa.Function
-	From     ssa.Instruction     // start right after this instruction ...
-	Start    []*ssa.BasicBlock   // ... or at the top of these blocks
+	From     ssa.Instruction   // start right after this instruction ...
+	Start    []*ssa.BasicBlock // ... or at the top of these blocks
 	Closes   func(ssa.Instruction) bool
-	Bad      func(ssa.Instruction) bool // an instruction that must not occur before the closer
+	Bad      func(ssa.Instruction) bool          // an instruction that must not occur before the closer
 	StopEdge func(from, to *ssa.BasicBlock) bool // edges that count as closed (e.g. optional component is nil)
-	ExitOK   func(r *ssa.Return) bool // returns that need no closer (e.g. error returns)
+	ExitOK   func(r *ssa.Return) bool            // returns that need no closer (e.g. error returns)
 }
 
 type followOutcome struct {
